@@ -14,6 +14,7 @@ class SolverFaults:
         self.plan = dict(plan or {})
         self.log = []
         self.count = 0
+        self.alarms = []     # invocation indices at which a real SIGALRM was delivered
 
     def __enter__(self):
         SW = self.fp.utils.solverwrapper.SolverWrapper
@@ -30,6 +31,28 @@ class SolverFaults:
                 sw._apply_pending_bound_updates()
                 sw._fpv_forced = forced
                 me.log.append((idx, forced))
+                return
+            if forced == "sigalrm":
+                # exercise the real custom-timeout path: the alarm really fires while the backend runs
+                import os, signal
+                sw.use_also_custom_timeout = True
+                if sw.time_limit == float("inf"):
+                    sw.time_limit = 3600.0
+                backend = sw.solver.optimize
+
+                def overrunning_backend(*a, **k):
+                    os.kill(os.getpid(), signal.SIGALRM)
+                    return backend(*a, **k)
+                sw.solver.optimize = overrunning_backend
+                try:
+                    me._orig_opt(sw)
+                finally:
+                    try:
+                        del sw.solver.optimize
+                    except AttributeError:
+                        pass
+                me.alarms.append(idx)
+                me.log.append((idx, me._orig_status(sw)))
                 return
             me._orig_opt(sw)
             if forced == "custom_timeout":
@@ -94,7 +117,9 @@ class SolveTrace:
                 st = obj.solver.get_model_status()
             except Exception as e:
                 st = f"<no status: {e!r}>"
-        self.log.append((getattr(obj, "k", None), st, bool(obj.is_solved())))
+        given = getattr(obj, "solution_weights_superset", None) is not None or \
+            bool(getattr(obj, "optimization_options", {}) and obj.optimization_options.get("given_weights") is not None)
+        self.log.append((getattr(obj, "k", None), st, bool(obj.is_solved()), given))
 
     def __exit__(self, *a):
         for cls, orig in self._orig.items():
